@@ -1,0 +1,96 @@
+//go:build verif
+
+// Contracts for the deductive verifier in /verif (govc): simplification of
+// repository filters against the repositories of one shard (C05, C18).
+// Comment-only file, compiled only with -tags verif.
+
+package index
+
+//@ func regexp.(*Regexp).MatchString
+//@   trusted
+//@   flag only_for=index.(*indexData).simplify
+//@   ensures result == reMatch(re, s)
+//@   assigns nothing
+
+//@ func roaring.(*Bitmap).Contains
+//@   trusted
+//@   flag only_for=index.(*indexData).simplify
+//@   ensures result == bmHas(rb, x)
+//@   assigns nothing
+
+// What each kind of repository filter accepts inside a shard: the same
+// formulas as the closures the sharded searcher pre-selects shards with
+// (search/zz_verif_contracts_c18.go).
+
+// repository name pattern (repo: and the regexp form)
+//@ func index.(*indexData).simplify$1$1
+//@   requires repo != nil && r != nil
+//@   ensures result == reMatch(r.Regexp, repo.Name)
+//@   assigns nothing
+//@ func index.(*indexData).simplify$1$2
+//@   requires repo != nil && r != nil
+//@   ensures result == reMatch(r.Regexp, repo.Name)
+//@   assigns nothing
+
+// repository set: the name is in the set
+//@ func index.(*indexData).simplify$1$3
+//@   requires repo != nil && r != nil
+//@   ensures result == r.Set[repo.Name]
+//@   assigns nothing
+
+// repository ids: the id is in the bitmap
+//@ func index.(*indexData).simplify$1$5
+//@   requires repo != nil && r != nil
+//@   ensures result == bmHas(r.Repos, repo.ID)
+//@   assigns nothing
+
+// metadata filter: the field is present and its value matches
+//@ func index.(*indexData).simplify$1$6
+//@   requires repo != nil && r != nil
+//@   ensures result == (repo.Metadata != nil && has(repo.Metadata, r.Field) && reMatch(r.Value, repo.Metadata[r.Field]))
+//@   assigns nothing
+
+// The filter as simplifyMultiRepo sees it.
+//@ abstract func shardPred(repo *zoekt.Repository) bool
+//@ func index.(*indexData).simplifyMultiRepo.predicate(repo)
+//@   ensures result == shardPred(repo)
+//@   assigns nothing
+
+// simplifyMultiRepo: a repository filter becomes the constant "true" exactly
+// when every repository of the shard that is not tombstoned passes it, the
+// constant "false" exactly when none does, and stays the filter itself
+// otherwise. (Documents of tombstoned repositories are never returned, so on
+// this shard the constant selects the documents the filter selects.)
+//@ func index.(*indexData).simplifyMultiRepo
+//@   requires d != nil && predicate != nil
+//@   let N = len(d.repoMetaData)
+//@   loop 1:
+//@     invariant 0 <= count && count <= alive - N + $i + 1
+//@     invariant (count == alive - N + $i + 1) == (forall k int :: 0 <= k && k <= $i && !d.repoMetaData[k].Tombstone ==> shardPred(addr(d.repoMetaData[k])))
+//@     invariant (count > 0) == (exists k int :: 0 <= k && k <= $i && !d.repoMetaData[k].Tombstone && shardPred(addr(d.repoMetaData[k])))
+//@     decreases N - $i
+//@   ensures (forall k int :: 0 <= k && k < N && !d.repoMetaData[k].Tombstone ==> shardPred(addr(d.repoMetaData[k]))) ==> typeis(result, "*query.Const") && as(result, "*query.Const").Value
+//@   ensures !(forall k int :: 0 <= k && k < N && !d.repoMetaData[k].Tombstone ==> shardPred(addr(d.repoMetaData[k]))) && (exists k int :: 0 <= k && k < N && !d.repoMetaData[k].Tombstone && shardPred(addr(d.repoMetaData[k]))) ==> result == q
+//@   ensures !(exists k int :: 0 <= k && k < N && !d.repoMetaData[k].Tombstone && shardPred(addr(d.repoMetaData[k]))) && (exists k int :: 0 <= k && k < N && !d.repoMetaData[k].Tombstone) ==> typeis(result, "*query.Const") && !as(result, "*query.Const").Value
+//@   assigns nothing
+
+// The rewrite callback of simplify, branches-repos case (the one kind handled
+// inline): the filter stays when some repository of the shard is in the
+// bitmap of some entry, and becomes the constant "false" when none is.
+//@ func index.(*indexData).simplify$1
+//@   may_panic
+//@   requires d != nil
+//@   requires typeis(q, "*query.BranchesRepos") ==> as(q, "*query.BranchesRepos") != nil
+//@   let BR = as(q, "*query.BranchesRepos")
+//@   loop 1:
+//@     invariant typeis(q, "*query.BranchesRepos")
+//@     invariant forall a, k int :: 0 <= a && a <= $i && 0 <= k && k < len(BR.List) ==> !bmHas(BR.List[k].Repos, d.repoMetaData[a].ID)
+//@     decreases len(d.repoMetaData) - $i
+//@     assigns nothing
+//@   loop 2:
+//@     invariant typeis(q, "*query.BranchesRepos")
+//@     invariant forall k int :: 0 <= k && k <= $i ==> !bmHas(BR.List[k].Repos, d.repoMetaData[i].ID)
+//@     decreases len(BR.List) - $i
+//@     assigns nothing
+//@   ensures typeis(q, "*query.BranchesRepos") && (exists a, k int :: 0 <= a && a < len(d.repoMetaData) && 0 <= k && k < len(BR.List) && bmHas(BR.List[k].Repos, d.repoMetaData[a].ID)) ==> result == q
+//@   ensures typeis(q, "*query.BranchesRepos") && !(exists a, k int :: 0 <= a && a < len(d.repoMetaData) && 0 <= k && k < len(BR.List) && bmHas(BR.List[k].Repos, d.repoMetaData[a].ID)) ==> typeis(result, "*query.Const") && !as(result, "*query.Const").Value
